@@ -486,6 +486,25 @@ def check_c03(pid, tier, seed):
                 steps.append({"fen": rnd.choice(fens), "depth": 2, "seed": rnd.randrange(1 << 30), "workers": 1, "reuse": True, "tag": "hist:unrelated"})
             steps.append({"fen": second, "depth": rnd.choice([1, 2, 2, 3]), "seed": rnd.randrange(1 << 30), "workers": w, "reuse": True, "tag": "hist:" + why})
             sessions.append({"id": sid, "steps": steps})
+    # as in a real game: the memory is kept while the game moves on two plies at a time (the new root was an inner node of the
+    # previous search), a few games of six searches each
+    wv(wvbin, ["play", "--seed", seed + 23, "--games", 8 if quick else 80, "--plies", 14, "--emit", "move", "--corpus", os.path.join(CORPUS, "positions.fen"), "--out-prefix", os.path.join(wd, "gl")])
+    game = []
+    games = []
+    for l in open(os.path.join(wd, "gl.move.ndjson")):
+        e = json.loads(l)
+        if e["ev"] == "Reset":
+            game = [pos_to_fen(e["pos"])]
+            games.append(game)
+        elif e["ev"] == "Move":
+            game.append(pos_to_fen(e["next"]))
+    for g in games:
+        roots = g[0:13:2]
+        if len(roots) >= 3:
+            sid += 1
+            d = rnd.choice([2, 3, 3])
+            sessions.append({"id": sid, "steps": [{"fen": f, "depth": d, "seed": rnd.randrange(1 << 30), "workers": 1 + (k % 2), "tables": 8, "buckets": 1024, "reuse": k > 0, "tag": "game-like"}
+                                                   for k, f in enumerate(roots)]})
     traces = run_scripts(wvbin, wd, "c03", sessions)
     validate_search_traces(chk, traces, pid)
     # white box: the workers' own event streams against the algorithmic model (stored moves legal, keys functional)
@@ -842,6 +861,14 @@ def check_c17(pid, tier, seed):
         for d in (3, 4):
             sid += 1
             sessions.append({"id": sid, "steps": [{"fen": root, "depth": d, "seed": rnd.randrange(1 << 30), "workers": 1, "history": succs, "tag": "castling-right-history"}]})
+    # long games: the recorded successor first, then sixty unrelated positions recorded after it (a memory late in a game)
+    filler = play_fens(wvbin, wd, seed + 17, 4, 60, every=3)
+    base = [s for s in sessions if len(s["steps"]) == 1 and s["steps"][0].get("history")]
+    for i, s0 in enumerate(base[:(30 if quick else 300)]):
+        st0 = s0["steps"][0]
+        rnd.shuffle(filler)
+        sid += 1
+        sessions.append({"id": sid, "steps": [dict(st0, history=list(st0["history"]) + filler[:60], seed=rnd.randrange(1 << 30), tag=(st0.get("tag") or "") + "+long-history")]})
     traces = run_scripts(wvbin, wd, "c17", sessions)
     validate_search_traces(chk, traces, pid, files=files)
     # white box: every history hit / probe of the workers against the model's HistoryHit rule
@@ -864,11 +891,13 @@ def check_c19(pid, tier, seed):
     quick = tier == "quick"
     rnd = random.Random(seed * 23 + 19)
     search_models(chk, pid, quick)
-    fens = corpus_fens() + play_fens(wvbin, wd, seed, 6 if quick else 60, 40)
+    # positions from long random games as well (thinned-out middlegames and endgames), mostly at depth 3-4: anything whose
+    # outcome depends on an iteration order, an address or a clock shows as a difference between runs only now and then
+    fens = corpus_fens() + play_fens(wvbin, wd, seed, 10 if quick else 60, 120, every=5)
     rnd.shuffle(fens)
     cases = []
-    for i in range(150 if quick else 4000):
-        cases.append({"fen": fens[i % len(fens)], "depth": rnd.choice([1, 2, 3, 3, 4]), "seed": rnd.randrange(1 << 30), "workers": 1})
+    for i in range(400 if quick else 6000):
+        cases.append({"fen": fens[i % len(fens)], "depth": rnd.choice([1, 2, 3, 3, 3, 4, 4]), "seed": rnd.randrange(1 << 30), "workers": 1})
     sessions = []
     for i, c in enumerate(cases):
         # run A and run B in the same process, fresh memory each
